@@ -720,16 +720,43 @@ pub fn rb(name: &str, b: &[u8], n: usize, ours: &Result<usize, Error>, line: &st
                         if len != k {
                             return Err("FAIL:tx-length-arith".into());
                         }
-                        if evs_s(&want) != ev_of_line(line) {
+                        // everything before the final `transaction` callback: the traversal of inputs/outputs/witnesses
+                        let ours = ev_of_line(line);
+                        let head = evs_s(&want[..want.len() - 1]);
+                        let head = if want.len() > 1 { format!("{}|", head) } else { String::new() };
+                        let Some(last_ours) = ours.strip_prefix(head.as_str()) else {
                             return Err("FAIL:tx-traversal-or-fields".into());
+                        };
+                        // the transaction callback itself, field by field
+                        let last_want = want.last().unwrap();
+                        let cut = |s: &str, a: &str, b: &str| -> String {
+                            let i = s.find(a).map(|i| i + a.len()).unwrap_or(0);
+                            let j = s[i..].find(b).map(|j| i + j).unwrap_or(s.len());
+                            s[i..j].to_string()
+                        };
+                        if cut(last_ours, "tx(", ",pre=") != cut(last_want, "tx(", ",pre=") {
+                            return Err("FAIL:tx-fields(view/version/locktime)".into());
+                        }
+                        if cut(last_ours, ",pre=", ",w=") != cut(last_want, ",pre=", ",w=") {
+                            return Err("FAIL:tx-preimage".into());
+                        }
+                        if cut(last_ours, ",w=", ")") != cut(last_want, ",w=", ")") {
+                            return Err("FAIL:tx-weight".into());
                         }
                         if serialize(&tx) != &b[..k] {
                             return Err("FAIL:tx-reserialize".into());
                         }
-                        // C10: txid from both backends == rust-bitcoin's; C16 weight is inside the tx event
-                        let want_obj = format!("{},txid={}", &want.last().unwrap()[3..want.last().unwrap().len() - 1], hex(&tx.compute_txid().to_byte_array()));
-                        if obj_of_line(line) != want_obj {
-                            return Err("FAIL:tx-object(txid/weight/preimage)".into());
+                        // C10: txid from both backends == rust-bitcoin's
+                        let obj = obj_of_line(line);
+                        let want_txid = hex(&tx.compute_txid().to_byte_array());
+                        if cut(obj, ",txid=", ")") != want_txid {
+                            return Err("FAIL:txid".into());
+                        }
+                        if cut(obj, ",w=", ",txid=") != cut(last_want, ",w=", ")") {
+                            return Err("FAIL:tx-weight".into());
+                        }
+                        if cut(obj, ",pre=", ",w=") != cut(last_want, ",pre=", ",w=") {
+                            return Err("FAIL:tx-preimage".into());
                         }
                     }
                     (Err(e), Err(o)) => errclass(&e, o)?,
@@ -911,7 +938,32 @@ pub fn redb_line(ctx: &Ctx, ty: &str, b: &[u8]) -> String {
         "outpoint" => rt!(bsl::OutPoint, bsl::OutPoint::parse(b), fmt::outpoint_f, Some(36), "op"),
         "txout" => rt!(bsl::TxOut, bsl::TxOut::parse(b), fmt::txout_f, None, "txout"),
         "txouts" => rt!(bsl::TxOuts, bsl::TxOuts::parse(b), fmt::txouts_f, None, "txouts"),
-        "tx" => rt!(bsl::Transaction, bsl::Transaction::parse(b), fmt::tx_fh, None, "tx"),
+        "tx" => {
+            let line = rt!(bsl::Transaction, bsl::Transaction::parse(b), fmt::tx_fh, None, "tx");
+            if ctx.oracles && b.len() < 4_000_000 {
+                // a transaction rebuilt from its stored bytes: txid and weight against rust-bitcoin (C10, C16)
+                let v = match (bsl::Transaction::parse(b), deserialize_partial::<bitcoin::Transaction>(b)) {
+                    (Ok(pr), Ok((tx, _))) => {
+                        let o = pr.parsed_owned();
+                        match pc(|| {
+                            let back = <bsl::Transaction as RedbValue>::from_bytes(<bsl::Transaction as RedbValue>::as_bytes(&o));
+                            let id = back.txid();
+                            let id: &[u8] = id.as_ref();
+                            (id == &tx.compute_txid().to_byte_array()[..] && back.txid_sha2().as_slice() == id, back.weight() == tx.weight().to_wu())
+                        }) {
+                            Ok((true, true)) => "ok",
+                            Ok((false, _)) => "FAIL:txid-of-rebuilt-transaction",
+                            Ok((true, false)) => "FAIL:weight-of-rebuilt-transaction",
+                            Err(_) => "FAIL:panic",
+                        }
+                    }
+                    _ => "na",
+                };
+                format!("{} redbtx={}", line, v)
+            } else {
+                line
+            }
+        }
         _ => "bad-op".into(),
     }
 }
@@ -1087,7 +1139,7 @@ pub fn cins_line(ctx: &mut Ctx, k: u64, v: &[u8]) -> String {
         }
     }
     // C06: ranges of distinct retrievable entries do not overlap (layout hook)
-    let (_, _, ranges) = st.cache.verif_layout();
+    let ranges = st.ranges().map(|x| x.2).unwrap_or_default();
     for i in 0..ranges.len() {
         for j in i + 1..ranges.len() {
             let (a, b2) = (ranges[i], ranges[j]);
@@ -1117,6 +1169,23 @@ pub fn gen_real(args: &[String]) {
                     break;
                 }
                 println!("visit tx n {}", hex(&serialize(tx)));
+            }
+        }
+        "sub" => {
+            // header + the first k transactions: small enough for the list-based model, still real data
+            let (blk, _) = deserialize_partial::<bitcoin::Block>(block).unwrap();
+            for k in [1usize, 7, 40] {
+                let mut b = block[..80].to_vec();
+                b.extend_from_slice(&serialize(&bitcoin::VarInt(k as u64)));
+                for tx in &blk.txdata[..k] {
+                    b.extend_from_slice(&serialize(tx));
+                }
+                println!("visit block n {}", hex(&b));
+                println!("visit block b{} {}", 3 * k, hex(&b));
+                for i in [0usize, k / 2, k - 1] {
+                    println!("find {} {}", hex(&blk.txdata[i].compute_txid().to_byte_array()), hex(&b));
+                }
+                println!("find {} {}", hex(&[0x42u8; 32]), hex(&b));
             }
         }
         "find" => {
